@@ -449,4 +449,18 @@ theorem invGamma_not_probability (T : Transc) (P : Rat → Rat → Except Err Ra
     · rw [if_neg ha, if_pos hp]
   · unfold invGammaQ; rw [if_pos hp]
 
+/-! ## Mirrors of the repairs proposed by the second audit (fixprop-C06-5, C06-6) -/
+
+theorem gammaTimesFraction_eq (g q : Rat) : gammaTimesFraction g q = g * q := by
+  unfold gammaTimesFraction
+  split_ifs with h
+  · rw [h, mul_zero]
+  · rfl
+
+theorem binomialAll_eq_choose (n k : Nat) (hk : k ≤ n) : binomialAll (n : Int) (k : Int) = .ok ((n.choose k : Nat) : Rat) := by
+  unfold binomialAll
+  rw [if_neg (by omega), if_neg (by omega)]
+  simp only [Int.toNat_natCast]
+  rw [binomProduct_eq_choose n k hk]
+
 end Lp.C06
